@@ -440,11 +440,14 @@ Section Calls.
             end
         | _ => (RStuck, s)
         end
+    | EStr str => (RVal (VStr str), s)
     | EMatchC sc arms =>
         match eval en sc s with
         | (RVal v, s1) => eval_arms eval en v arms s1
         | other => other
         end
+    | EDebugMapBuilder => (RStuck, s)          (* local item declarations: not interpreted *)
+    | EDebugFieldArg _ _ _ _ _ _ => (RStuck, s)
     end.
 
   (** running a method body: a propagating `return` becomes the result *)
